@@ -365,13 +365,15 @@ class Case:
     def calls_nomkdir(self) -> List[Any]:
         return [c for c in self.calls if c[0] != "Mkdir"]
 
-    def final_paths(self) -> List[Any]:
+    def final_paths(self, with_markers: bool = True) -> List[Any]:
         seen: List[Any] = []
         for c in self.calls:
             for x in c[1:]:
                 if isinstance(x, tuple) and x and x[0] == "P" and x not in seen:
                     seen.append(x)
-        return seen
+        # the directories below metadata/inflight are ONE directory for the model (ostrace.Namer.dir): which of the markers a
+        # directory fsync persisted is therefore not comparable between the two evaluators, and not part of C16's statement
+        return seen if with_markers else [x for x in seen if x[1] != ostrace.DIRS["metadata/inflight"]]
 
 
 def mask_lengths(calls: List[Any]) -> List[Any]:
@@ -765,7 +767,7 @@ def corr_evaluator(ctx, cases: List[Case]) -> None:
     for c in cases:
         if c.can["unknown"]:
             continue
-        paths = c.final_paths()
+        paths = c.final_paths(with_markers=False)
         rel_of = {("P",) + v: k for k, v in c.namer.names.items()}
         if any(p not in rel_of for p in paths):
             continue
@@ -807,7 +809,7 @@ def corr_schedules(ctx, cases: List[Case], per_case: int) -> None:
     for c in cases:
         if c.can["unknown"]:
             continue
-        paths = c.final_paths()
+        paths = c.final_paths(with_markers=False)
         rel_of = {("P",) + v: k for k, v in c.namer.names.items()}
         if any(p not in rel_of for p in paths):
             continue
